@@ -29,7 +29,7 @@ FUNCS = ['IntegerHelper.signed_to_c2', 'IntegerHelper.c2_to_signed', 'IntegerHel
 HEAP_FUNCS = ['FPNum.increase_exponent', 'FPNum.increase_precision', 'FPNum.set_semp', 'FPNum.adjust_semp', 'FPNum.__init__/4',
               'FPNum.__init__/0', 'FPNum.from_ieee754_hp', 'FPNum.from_ieee754_sp', 'FPNum.from_ieee754_dp',
               'FPNum.__init__/2hp', 'FPNum.__init__/2sp', 'FPNum.__init__/2dp', 'FPNum.copy', 'FPNum.add', 'FPNum.sub', 'FPNum.mul', 'FPNum.neg', 'FPNum.compare',
-              'FixedPoint.intToFixedPoint', 'FixedPoint.__init__', 'FixedPoint.add', 'FixedPoint.sub']
+              'FixedPoint.intToFixedPoint', 'FixedPoint.__init__', 'FixedPoint.add', 'FixedPoint.sub', 'FixedPoint.mult']
 
 
 def heap_item(qual, timeout_s=30, **kw):
@@ -201,7 +201,7 @@ def main(tier, seed, only=None):
     return run.finish(PROP, tier, res, t0, level='proof', seed=seed,
                       functions=['py4hw/helper.py::' + f for f in FUNCS + HEAP_FUNCS],
                       assumptions=[common.dropped_note(), 'Python ints are mathematical integers',
-                                   'proof level covers the integer helpers, the field packers and the exact arithmetic / order of FPNum (add, sub, mul, neg, compare, constructor, renormalisation); float-valued helpers, FPNum.convert / to_float / div / sqrt / reducePrecision*, FixedPoint.mult and the float-to-fixed conversion are the bounded parts below (struct / Fraction oracles)',
+                                   'proof level covers the integer helpers, the field packers and the exact arithmetic / order of FPNum (add, sub, mul, neg, compare, constructor, renormalisation); float-valued helpers, FPNum.convert / to_float / div / sqrt / reducePrecision* and the float-to-fixed conversion are the bounded parts below; FixedPoint.mult is proved up to the abstract result of signExtend (itself proved in scalar mode) and an opaque product, and additionally replayed on raw encodings below (struct / Fraction oracles)',
                                    'FPNum contracts: operands are finite well-formed numbers (precision a power of two, mantissa >= 0, sign +-1, not NaN / infinity) -- what the constructors establish; NaN / infinity branches are executed but carry no postcondition; field values are Python ints (isinstance(m, int) taken as true: the model has no floats); termination of the renormalisation loops is not proved (partial correctness)',
                                    'abstract rationals: val / qadd / qsub / qmul / qneg / qcmp are uninterpreted in the heap proofs; the axioms about them (contracts/fpnum.py::AXIOMS) are proved in real arithmetic under val = s * 2**e * m / p in every run (axiom::*), from three trusted schemata for 2**e (recurrence, strict monotonicity, 2**(a+b) = 2**a * 2**b) and positivity',
                                    'a new object is distinct from None, from the reference arguments and from every object that existed before (ghost alloc set); mul: products of two symbolic terms are abstracted to an uninterpreted function with sign / unit / commutativity facts',
